@@ -142,6 +142,11 @@ class PackedEncoder:
             return int(type.size * self._get_type_length(fcp, type.underlying_type))
         elif isinstance(type, EnumType):
             return int(fcp.get_enum(type.name).unwrap().get_packed_size())
+        elif isinstance(type, StructType):
+            return sum(
+                self._get_type_length(fcp, field.type)
+                for field in fcp.get_struct(type.name).unwrap().fields
+            )
         else:
             raise ValueError("Error computing type length for type " + str(type))
 
